@@ -567,7 +567,40 @@ func c08R5(c *Ctx, rule string) {
 				engine.PredRel("cfg", p0+".Type", "LogConfiguration", engine.EQ),
 			}})
 			for _, ret := range engine.ReturnsOf(sf) {
-				d := c.P.D(engine.ReturnValues(ret)[0])
+				rv := engine.ReturnValues(ret)[0]
+				d := c.P.D(rv)
+				if ph, ok := rv.(*ssa.Phi); ok && len(ph.Edges) == 2 {
+					// `return a == Command || a == Configuration`: the value
+					// is true on the short-circuit edge (first test held) and
+					// the second test's outcome otherwise
+					okExpr := false
+					for i, e := range ph.Edges {
+						if ConstBool(e, true) {
+							o := ph.Edges[1-i]
+							for _, st := range rs.EdgeStates(ph.Block().Preds[i], ph.Block()) {
+								_ = st
+							}
+							cd := c.P.CondOf(o)
+							s1, ok1 := cd.RelOn(p0+".Type", "LogCommand")
+							s2, ok2 := cd.RelOn(p0+".Type", "LogConfiguration")
+							if (ok1 && s1 == engine.EQ) || (ok2 && s2 == engine.EQ) {
+								okExpr = true
+								for _, st := range rs.EdgeStates(ph.Block().Preds[i], ph.Block()) {
+									if !(st.T("cmd") || st.T("cfg")) {
+										okExpr = false
+									}
+								}
+								for _, st := range rs.EdgeStates(ph.Block().Preds[1-i], ph.Block()) {
+									if ok1 && !st.F("cfg") || ok2 && !st.F("cmd") {
+										okExpr = false
+									}
+								}
+							}
+						}
+					}
+					c.Check(rule, "applyBatch/shouldSend:expression", c.P.InstrPos(ret), "true exactly for LogCommand and LogConfiguration", okExpr, "returns "+d, 2)
+					continue
+				}
 				c.RequireAt(rs, rule, "applyBatch/shouldSend:"+d, ret, "true exactly for LogCommand and LogConfiguration", func(v engine.View) bool {
 					if d == "true" {
 						return v.T("cmd") || v.T("cfg")
